@@ -479,7 +479,9 @@ func c17Gated(t *testing.T, p *c17Prog, dir string, st *strategy) *c17Run {
 				res.maxPend = len(pending)
 			}
 			k := st.choose(pending)
-			res.writes = append(res.writes, pending[k].raw)
+			// the shared stream takes the bytes in when the Write completes, not when it was called: a block whose
+			// buffer is reused while its Write is still pending comes out corrupted
+			res.writes = append(res.writes, string(pending[k].buf))
 			g.release(pending[k])
 		}
 		res.branch = st.branch
